@@ -57,7 +57,11 @@ class Chan:
         line, self.buf = self.buf.split(b"\n", 1)
         return json.loads(line)
 
+    bypass = False  # decoy phase: the request runs outside the simulation
+
     def seam(self, kind, **info):
+        if self.bypass:
+            return {"act": "go"}
         self.nseams += 1
         msg = {"ev": "seam", "kind": kind}
         msg.update(info)
@@ -303,7 +307,7 @@ def install_seams(chan, cache_dir, private_tmp):
 
     def sim_check_call(cmd, *a, **k):
         cmd = list(cmd)
-        if not cmd or not any(MODPREFIX in str(x) for x in cmd):
+        if chan.bypass or not cmd or not any(MODPREFIX in str(x) for x in cmd):
             return real_check_call(cmd, *a, **k)
         is_compile = "-c" in cmd
         out = cmd[cmd.index("-o") + 1]
@@ -464,6 +468,27 @@ def child_main(rfd, wfd, cache_dir, private_tmp, pool):
         cmd = chan.recv()
         if cmd["cmd"] == "exit":
             os._exit(0)
+        if cmd["cmd"] == "decoy":
+            # an earlier request of this process, outside the simulation, that used the SAME
+            # spelling of the cache directory while it still meant another (private) directory
+            chan.bypass = True
+            try:
+                req, objs = pool[cmd["req"]]
+                fn = jit.compile_forms if req.kind == "forms" else jit.compile_expressions
+                if cmd.get("chdir_before"):
+                    os.chdir(cmd["chdir_before"])
+                try:
+                    fn(list(objs), options=dict(req.options), cache_dir=cmd["cache_arg"], timeout=1,
+                       **dict(req.jit_kwargs))
+                    ok = "returned"
+                except BaseException as e:
+                    ok = "raised " + type(e).__name__
+                if cmd.get("chdir_after"):
+                    os.chdir(cmd["chdir_after"])
+            finally:
+                chan.bypass = False
+            chan.send({"ev": "decoy-done", "result": ok})
+            continue
         chan.now = cmd.get("now", chan.now)
         req, objs = pool[cmd["req"]]
         handlers_before = list(root.handlers)
